@@ -80,6 +80,11 @@ class Geom(object):
         if not self.ln:
             o["line-numbers-left-format"] = ""
             o["line-numbers-right-format"] = ""
+        if self.mll == "wide-gutter":
+            # a double-width character as gutter decoration (a full-width bar)
+            del o["max-line-length"]
+            o["line-numbers-left-format"] = "{nm:^4}\uff5c"
+            o["line-numbers-right-format"] = "{np:^4}\uff5c"
         return o
 
 
@@ -338,6 +343,9 @@ def geometries(tier):
     # unlimited wrapping with a small --max-line-length: wrapping is lossless, so the limit must not cut
     for W in ([20, 40] if tier == "quick" else [18, 20, 24, 40]):
         gs.append(Geom(W, "unlimited", DEFAULT_SYM, 37, False, "spaces", mll="10"))
+    for W in ([24, 40] if tier == "quick" else [22, 24, 40, 41]):
+        gs.append(Geom(W, "unlimited", DEFAULT_SYM, 37, False, "spaces", mll="wide-gutter"))
+        gs.append(Geom(W, "2", DEFAULT_SYM, 37, False, "spaces", mll="wide-gutter"))
     # with markers kept one more column is needed
     return [g for g in gs if (g.W // 2 - 6 - (1 if g.markers else 0)) >= 3]
 
